@@ -12,8 +12,24 @@ Q = lambda tier: tier == "quick"
 # ---------------------------------------------------------------------------------------------------
 # per-property runs
 # ---------------------------------------------------------------------------------------------------
+TP_CONSTS = {"Strict": "FALSE", "CheckArith": "TRUE", "CrossFresh": "FALSE"}
+TV_TOKEN = {"Strict": "FALSE", "CheckArith": "FALSE", "CheckLayout": "FALSE"}
+
+
+def honest(s):
+    return s["expect"]["prove"] == "ok" and s["expect"]["verify"] == "ok"
+
+
 def run_C01(tier, seed):
-    return [stages.api_stage("C01", "complete", tier, seed)]
+    q = Q(tier)
+    res = [stages.api_stage("C01", "complete", tier, seed)]
+    # design level: published relation vanishes on the code-shaped prover's output, exhaustively over GF(p)
+    res.append(stages.algebra_stage("C01", [(5, 2, 1, 2, "prover")] if q else [(5, 2, 2, 1, "prover"), (7, 4, 1, 2, "prover"), (5, 1, 4, 1, "prover")]))
+    # conformance: the library's prover and verifier, step by step against the specification, in 252-bit arithmetic
+    sc, _ = stages.pick_scenarios("complete", tier, seed, lambda s: honest(s) and nm_of(s) <= (8 if q else 32), 14 if q else 120, prop="C01")
+    res.append(stages.trace_stage("C01", "prove", sc, seed, module="TraceProve", consts=TP_CONSTS, calls="prove"))
+    res.append(stages.trace_stage("C01", "verify", sc, seed, module="TraceVerify", calls="verify"))
+    return res
 
 
 def nm_of(s):
@@ -67,8 +83,73 @@ def run_C07(tier, seed):
     return [stages.api_stage("C07", "promise", tier, seed)]
 
 
+def run_C04(tier, seed):
+    q = Q(tier)
+    res = [stages.transcript_stage("C04", tier)]
+    # TV-2: pairs of verifier runs differing in exactly one datum; every challenge from the first affected one on must change
+    sc, r = stages.pick_scenarios("bind", tier, seed, lambda s: s["expect"]["prove"] == "ok", 10000, prop="C04")
+    st = stages.trace_stage("C04", "pairs", sc, seed, module="TraceTranscriptPair", consts={}, calls="verify", arith=False, per_file=40)
+    st.states += r["distinct"]
+    st.transitions += r["generated"]
+    res.append(st)
+    # TV-1: at every challenge of every prover and verifier run, everything that precedes it has been absorbed (token mode)
+    sc2, _ = stages.pick_scenarios("alter", tier, seed, verifies, 150 if q else 1500, prop="C04")
+    sc3, _ = stages.pick_scenarios("complete", tier, seed, lambda s: honest(s) and nm_of(s) <= 128, 100 if q else 1000, prop="C04")
+    res.append(stages.trace_stage("C04", "dep-verify", sc2 + sc3, seed, module="TraceVerify", consts=TV_TOKEN, calls="verify", arith=False, per_file=40))
+    res.append(stages.trace_stage("C04", "dep-prove", sc3, seed, module="TraceProve", consts={"Strict": "FALSE", "CheckArith": "FALSE", "CrossFresh": "FALSE"}, calls="prove", arith=False, per_file=40))
+    # RP: honest proofs re-verified under a perturbed context are rejected
+    res.append(stages.api_stage("C04", "bind", tier, seed))
+    return res
+
+
+def run_C08(tier, seed):
+    q = Q(tier)
+    res = [stages.weights_stage("C08"),
+           stages.simple_mc_stage("C08", "MC_Transcript", stages.transcript_cfg(), [("weight_blind_to_" + o, stages.transcript_cfg(omit=o), "WeightBound") for o in ("r1", "s1", "d1")], name="weight-binding")]
+    # provenance and homogeneity of the weights actually used, on multi-member batches, in 252-bit arithmetic
+    sc, _ = stages.pick_scenarios("batch", tier, seed, lambda s: verifies(s) and len(s["sc"]["members"]) >= 2 and nm_of(s) <= 16 and s["sc"]["skew"] == [0, 0, 0], 14 if q else 150, prop="C08")
+    sc2, _ = stages.pick_scenarios("recover", tier, seed, lambda s: verifies(s) and len(s["sc"]["members"]) >= 2 and s["sc"]["mode"] != "RecoverOnly", 6 if q else 60, prop="C08")
+    res.append(stages.trace_stage("C08", "weights", sc + sc2, seed, module="TraceVerify", calls="verify"))
+    # a response scalar changed => the proof's contribution to the weight transcript and all weights change
+    sc3, r = stages.pick_scenarios("bind", tier, seed, lambda s: s["sc"]["wdiff"], 10000, prop="C08")
+    st = stages.trace_stage("C08", "response-pairs", sc3, seed, module="TraceTranscriptPair", consts={}, calls="verify", arith=False, per_file=40)
+    res.append(st)
+    res.append(stages.api_stage("C08", "batch", tier, seed, groups=("fm",)))
+    return res
+
+
+def run_C13(tier, seed):
+    q = Q(tier)
+    res = [stages.transcript_stage("C13", tier, omits=(), extra_negs=[("rng_not_rebuilt", stages.transcript_cfg(rebuild=False), "SeesAll")])]
+    # every degree, seeded and unseeded, several sizes: nonces read off the proof points, provenance, distinctness, cross-run freshness
+    sc, _ = stages.pick_scenarios("hedge", tier, seed, lambda s: s["sc"]["members"][0]["rng"] == "chacha", 10 if q else 80, prop="C13")
+    sc2, _ = stages.pick_scenarios("complete", tier, seed, lambda s: honest(s) and nm_of(s) <= (8 if q else 32), 14 if q else 150, prop="C13")
+    res.append(stages.trace_stage("C13", "nonces", sc + sc2, seed, module="TraceProve", consts={"Strict": "FALSE", "CheckArith": "TRUE", "CrossFresh": "TRUE"}, calls="prove"))
+    return res
+
+
+def run_C14(tier, seed):
+    q = Q(tier)
+    res = [stages.transcript_stage("C14", tier, omits=(), extra_negs=[("no_witness_rekey", stages.transcript_cfg(rekey=False), "Hedged"),
+                                                                    ("rng_not_rebuilt", stages.transcript_cfg(rebuild=False), "SeesAll")])]
+    # pairs of runs under faulty external RNGs: identical runs reproduce, runs differing in one input share no RNG-derived nonce
+    sc, _ = stages.pick_scenarios("hedge", tier, seed, lambda s: s["sc"]["members"][0]["rng"] != "chacha", 16 if q else 200, prop="C14")
+    res.append(stages.trace_stage("C14", "hedged-pairs", sc, seed, module="TraceProve", consts={"Strict": "FALSE", "CheckArith": "TRUE", "CrossFresh": "TRUE"}, calls="prove"))
+    # rekey-with-witness and rebuild-after-absorption on every generator, in bulk (token mode)
+    sc2, _ = stages.pick_scenarios("complete", tier, seed, lambda s: honest(s) and nm_of(s) <= 128, 120 if q else 1200, prop="C14")
+    res.append(stages.trace_stage("C14", "rekey", sc2, seed, module="TraceProve", consts={"Strict": "FALSE", "CheckArith": "FALSE", "CrossFresh": "FALSE"}, calls="prove", arith=False, per_file=40))
+    res.append(stages.api_stage("C14", "hedge", tier, seed))
+    return res
+
+
 def run_C09(tier, seed):
-    return [stages.api_stage("C09", "recover", tier, seed, filter_fn=lambda s: all(m["mut"]["kind"] == "none" for m in s["sc"]["members"]))]
+    q = Q(tier)
+    res = [stages.api_stage("C09", "recover", tier, seed, filter_fn=lambda s: all(m["mut"]["kind"] == "none" for m in s["sc"]["members"]))]
+    res.append(stages.algebra_stage("C09", [(5, 2, 1, 2, "prover")] if q else [(7, 4, 1, 2, "prover"), (5, 2, 1, 3, "prover")]))
+    # the seed-derived nonces enter A, L_j, R_j, A1, B at index (label, j, k) exactly as the reference derivation says
+    sc, _ = stages.pick_scenarios("recover", tier, seed, lambda s: honest(s) and len(s["sc"]["members"]) == 1 and s["sc"]["members"][0]["seed"] != 0 and nm_of(s) <= (8 if q else 64), 12 if q else 100, prop="C09")
+    res.append(stages.trace_stage("C09", "seed-nonces", sc, seed, module="TraceProve", consts=TP_CONSTS, calls="prove"))
+    return res
 
 
 def run_C10(tier, seed):
@@ -83,7 +164,11 @@ CHECKS = {
     "C01": {"run": run_C01, "level": "model_checking"},
     "C02": {"run": run_C02, "level": "model_checking"},
     "C03": {"run": run_C03, "level": "model_checking"},
+    "C04": {"run": run_C04, "level": "model_checking"},
     "C05": {"run": run_C05, "level": "model_checking"},
+    "C08": {"run": run_C08, "level": "model_checking"},
+    "C13": {"run": run_C13, "level": "model_checking"},
+    "C14": {"run": run_C14, "level": "model_checking"},
     "C06": {"run": run_C06, "level": "model_checking"},
     "C07": {"run": run_C07, "level": "model_checking"},
     "C09": {"run": run_C09, "level": "model_checking"},
